@@ -18,6 +18,39 @@ import framework  # noqa: E402
 LEVELS = {}
 
 
+def selftest(pid):
+    """Thorough tier: how sharp is this property's rule set?  Every seeded break of this property (seeded/<pid>-*,
+    selftest/mutants/c<nn>-*) is applied to a scratch copy of the current tree and must be reported; the
+    behaviour-preserving twin (selftest/benign/all-benign.diff) must be silent.  Results go to the evidence only."""
+    import glob
+    import re
+    import subprocess
+    verif = os.path.dirname(HERE)
+    pats = sorted(glob.glob(os.path.join(verif, "seeded", pid + "-*", "patch.diff")))
+    pats += sorted(glob.glob(os.path.join(verif, "selftest", "mutants", pid.lower() + "-*.diff")))
+    out = {"mutants": [], "killed": 0, "total": 0}
+    seed = int(os.environ.get("VERIF_SEED", "0") or 0)
+    if seed:
+        import random
+        random.Random(seed).shuffle(pats)
+    for p in pats:
+        r = subprocess.run([os.path.join(verif, "bin", "try-mutant"), p, pid], stdout=subprocess.PIPE, stderr=subprocess.STDOUT, text=True)
+        keys = re.findall(r"key: (.*)", r.stdout)
+        applied = "FAILED" not in r.stdout and "malformed" not in r.stdout
+        name = os.path.relpath(p, verif)
+        out["mutants"].append({"patch": name, "applied": applied, "reported": keys[:6]})
+        if applied:
+            out["total"] += 1
+            if keys:
+                out["killed"] += 1
+    b = os.path.join(verif, "selftest", "benign", "all-benign.diff")
+    if os.path.exists(b):
+        r = subprocess.run([os.path.join(verif, "bin", "try-mutant"), b, pid], stdout=subprocess.PIPE, stderr=subprocess.STDOUT, text=True)
+        keys = re.findall(r"key: (.*)", r.stdout)
+        out["benign_twin"] = {"applied": "FAILED" not in r.stdout, "silent": not keys, "reported": keys[:6]}
+    return out
+
+
 def main():
     ap = argparse.ArgumentParser()
     ap.add_argument("pid")
@@ -53,9 +86,17 @@ def main():
         mod.run(ck, F, E)
         if tier == "thorough" and hasattr(mod, "run_thorough"):
             mod.run_thorough(ck, F, E)
+        if tier == "thorough":
+            import witness
+            witness.obligations(ck, pid)
     except Exception:
         tb = traceback.format_exc()
         ck.bad("ENGINE:%s" % pid, "engine", "rule engine crashed (fails closed):\n" + tb)
+    if tier == "thorough" and only is None and os.environ.get("ABASIC_REPO") is None:
+        try:
+            ck.note("selftest", selftest(pid))
+        except Exception as ex:  # the self-test measures the checker, it never decides the property
+            ck.note("selftest", {"error": repr(ex)})
     if only is not None:
         ck.obs = [o for o in ck.obs if o.key == only]
         if not ck.obs:
